@@ -95,6 +95,9 @@ TEMPLATES = {
                                                '_emit': True}}},
                   'update': {'out': {'after': {'$state': ('out', 'z')}}}}},
         'flow': {'w': [], 'r': [], 'd': [('w',)]}},
+    # like 'steps', but the dependent step d is listed in the PROCESSES
+    # dictionary (legal: a Step is a Process); its flow entry still holds
+    'step-in-processes': None,
     'init': {
         'processes': {'p': pspec('p', 's', init=40),
                       'q': pspec('q', 's2', init=7)},
@@ -105,6 +108,15 @@ TEMPLATES = {
 
 def _renamed(tree, suffix):
     return {k + suffix: v for k, v in tree.items()} if suffix else tree
+
+
+def _step_in_processes():
+    t = copy.deepcopy(TEMPLATES['steps'])
+    t['processes']['d'] = t['steps'].pop('d')
+    return t
+
+
+TEMPLATES['step-in-processes'] = _step_in_processes()
 
 
 class ProbeComposer(Composer):
@@ -381,6 +393,87 @@ def check_entry_points(tname, path, acc, explicit_state=True):
               f'{tname} at {path}: entry point {entry} gives {diff[1]}, '
               f'composite gives {diff[0]}')
             return
+
+
+def check_override_isolation(how, acc):
+    """Two composites generated by ONE composer that carries an override
+    are merged at two paths; a later override names the process of ONE of
+    them: the other composite's process, and the composer's own override,
+    stay as they were. Likewise two processes built from one parameters
+    dictionary that holds a _schema."""
+    case = {'part': 'override-isolation', 'how': how}
+    acc.case(key=('override-isolation', how), outcome='override')
+    try:
+        if how == 'composer':
+            ov = {'p': {'port': {'x': {'_default': 7}}}}
+            composer = ProbeComposer({'template': 'flat', '_schema': ov})
+            full = Composite()
+            full.merge(composite=composer.generate(path=('agents', '1')))
+            full.merge(composite=composer.generate(path=('agents', '2')))
+            full.merge(schema_override={'agents': {'1': {'p': {'port': {
+                'x': {'_default': 555}}}}}})
+            one = full['processes']['agents']['1']['p']
+            two = full['processes']['agents']['2']['p']
+            kept = composer.schema_override['p']['port']['x']['_default']
+        else:
+            params = dict(pspec('p', 's'),
+                          _schema={'port': {'x': {'_default': 7}}})
+            params.pop('cls')
+            one = probes.Probe(params)
+            two = probes.Probe(params)
+            one.merge_overrides({'port': {'x': {'_default': 555}}})
+            kept = params['_schema']['port']['x']['_default']
+        got = (one.get_schema()['port']['x']['_default'],
+               two.get_schema()['port']['x']['_default'], kept)
+    except Exception as e:  # noqa
+        acc.violate(fw.violation(
+            'C16.crash', f'override-isolation:{type(e).__name__}',
+            f'{case}: {e!r}', case))
+        return
+    if got != (555, 7, 7):
+        acc.violate(fw.violation(
+            'C16.override', 'override-leaked',
+            f'{how}: an override (default 555) named ONE process; the '
+            f'named process, its twin and the original override hold '
+            f'{got}, expected (555, 7, 7)', case))
+
+
+def check_state_precedence(path, acc):
+    """State merged into the composite for a variable that a process's
+    own initial_state() sets too: the composite's state wins, through
+    every entry point."""
+    case = {'part': 'state-precedence', 'path': path}
+    acc.case(key=('state-precedence', path), outcome='entry')
+    starts = {}
+    try:
+        for entry in ('composite', 'parts', 'store', 'initial_state()'):
+            comp = ProbeComposer({'template': 'init'}).generate(path=path)
+            comp.merge(state={'s': {'x': 5}}, path=path)
+            if entry == 'composite':
+                eng = run_engine(1, composite=comp)
+            elif entry == 'parts':
+                eng = run_engine(1, processes=comp['processes'],
+                                 steps=comp['steps'], flow=comp['flow'],
+                                 topology=comp['topology'],
+                                 initial_state=comp['state'])
+            elif entry == 'store':
+                eng = run_engine(1, store=comp.generate_store())
+            else:
+                starts[entry] = get(comp.initial_state(), path)['s']['x']
+                continue
+            starts[entry] = get(eng.emitter.records[1]['snapshot'],
+                                path)['s']['x']
+    except Exception as e:  # noqa
+        acc.violate(fw.violation(
+            'C16.crash', f'state-precedence:{type(e).__name__}',
+            f'{case}: {e!r}', case))
+        return
+    if set(starts.values()) != {5}:
+        acc.violate(fw.violation(
+            'C16.entry', 'composite-state-loses-to-process-initial-state',
+            f'composite at {path} with merged state s.x = 5 (process p '
+            f'declares initial_state s.x = 40): the simulation starts '
+            f'from {starts}', case))
 
 
 def check_overrides(tname, acc):
@@ -722,6 +815,12 @@ def run_job(job, acc):
     if kind == 'composer-reuse':
         check_composer_reuse(job[1], acc)
         return
+    if kind == 'state-precedence':
+        check_state_precedence(job[1], acc)
+        return
+    if kind == 'override-isolation':
+        check_override_isolation(job[1], acc)
+        return
     if kind == 'override-survives':
         check_override_survives(job[1], job[2], acc)
         return
@@ -758,6 +857,10 @@ def jobs(ctx):
         for as_step in (False, True):
             for renamed in (False, True):
                 out.append(('process-generate', path, as_step, renamed))
+    for path in paths:
+        out.append(('state-precedence', path))
+    out += [('override-isolation', 'composer'),
+            ('override-isolation', 'parameters')]
     calls = ('plain', 'config', 'path', 'initial_state', 'parameters')
     for order in itertools.permutations(calls, 3):
         if order[-1] in ('initial_state', 'parameters'):
@@ -792,6 +895,10 @@ def replay(case):
         check_merges(tup(case['sequence']), acc)
     elif case['part'] == 'late-override':
         check_late_override(case['template'], acc)
+    elif case['part'] == 'override-isolation':
+        check_override_isolation(case['how'], acc)
+    elif case['part'] == 'state-precedence':
+        check_state_precedence(tup(case['path']), acc)
     elif case['part'] == 'composer-reuse':
         check_composer_reuse(tup(case['order']), acc)
     elif case['part'] == 'multi-override':
@@ -813,3 +920,6 @@ def replay(case):
 
 RULE += (
     ' Overrides with several entries at one level (compartment entry first or last) through Composer config, Composite config and merge.')
+
+RULE += (
+    " Template step-in-processes (a Step object listed under processes: it must run as a step through every entry point). State precedence: a state merged into the composite wins over the process's own initial_state() through every entry point. Composer reuse: one Composer generating twice gives independent composites. Override isolation: an override naming ONE of two processes generated from one Composer (or built from one parameters dictionary) reaches only that process.")
